@@ -114,16 +114,57 @@ var unaryTernarySrcs = []struct {
 	{"x := a << b + c", "((a << b) + c)"},
 	{"x := a == b != c", "((a == b) != c)"},
 	{"x := a &^ b | c", "((a &^ b) | c)"},
+	{"x := - -a", "(-(-a))"},
+	{"x := a - -b - + c", "((a - (-b)) - (+c))"},
+	{"x := !-^+a", "(!(-(^(+a))))"},
+	{"x := -a ? !b : ^c", "((-a) ? (!b) : (^c))"},
+}
+
+// groupOf renders the tree structure of an expression fully parenthesised,
+// from the AST nodes themselves (not through the package's printer, so that
+// a printer change is not mistaken for a grouping change).
+func groupOf(e parser.Expr) string {
+	switch x := e.(type) {
+	case *parser.BinaryExpr:
+		return "(" + groupOf(x.LHS) + " " + x.Token.String() + " " + groupOf(x.RHS) + ")"
+	case *parser.UnaryExpr:
+		return "(" + x.Token.String() + groupOf(x.Expr) + ")"
+	case *parser.CondExpr:
+		return "(" + groupOf(x.Cond) + " ? " + groupOf(x.True) + " : " + groupOf(x.False) + ")"
+	case *parser.ParenExpr:
+		return groupOf(x.Expr)
+	case *parser.Ident:
+		return x.Name
+	case *parser.IndexExpr:
+		return groupOf(x.Expr) + "[" + groupOf(x.Index) + "]"
+	case *parser.SelectorExpr:
+		return groupOf(x.Expr) + "." + groupOf(x.Sel)
+	case *parser.StringLit:
+		return x.Value
+	case *parser.IntLit:
+		return x.Literal
+	case *parser.CallExpr:
+		out := groupOf(x.Func) + "("
+		for k, a := range x.Args {
+			if k > 0 {
+				out += ", "
+			}
+			out += groupOf(a)
+		}
+		return out + ")"
+	}
+	return "?"
 }
 
 // C20_UnaryTernary: unary binds tighter than every binary level, the ternary
-// loosest (finite list; the printed form of tengo's AST is fully parenthesised).
+// loosest (finite list).
 func C20_UnaryTernary() {
 	c := unaryTernarySrcs[vf.Choice("case", len(unaryTernarySrcs))]
 	file, err := parseSrc([]byte(c.src))
 	vf.Assert(err == nil && len(file.Stmts) == 1, "parses: "+c.src)
 	as := file.Stmts[0].(*parser.AssignStmt)
-	vf.Assert(as.RHS[0].String() == c.want, "grouping of `"+c.src+"` is "+c.want+", got "+as.RHS[0].String())
+	got := groupOf(as.RHS[0])
+	vf.Assert(got == c.want, "grouping of `"+c.src+"` is "+c.want+", got "+got)
 	vf.Reach("unary")
 }
 
@@ -248,7 +289,7 @@ func C20_Literals() {
 
 // ---- print / re-parse
 
-var exprLeaves = []string{"a", "1", `"s"`, "f(a, b...)", "a.k[1]", "a[1:2]", "[a, 2.5, 'c', true, undefined]", "{k: a}", "func(x, ...y) { return x }", "immutable([1])", "error(a)", `import("m")`}
+var exprLeaves = []string{"a", "-a", "+b", "1", `"s"`, "f(a, b...)", "a.k[1]", "a[1:2]", "[a, 2.5, 'c', true, undefined]", "{k: a}", "func(x, ...y) { return x }", "immutable([1])", "error(a)", `import("m")`}
 var exprBins = []string{"+", "-", "*", "/", "%", "&", "|", "^", "&^", "<<", ">>", "==", "!=", "<", "<=", ">", ">=", "&&", "||"}
 var exprUns = []string{"-", "!", "^", "+"}
 
@@ -262,7 +303,7 @@ func genExpr(id string, depth int) string {
 	case 1:
 		return genExpr(id+"l", depth-1) + " " + exprBins[vf.Choice(id+".op", len(exprBins))] + " " + genExpr(id+"r", depth-1)
 	case 2:
-		return exprUns[vf.Choice(id+".un", len(exprUns))] + genExpr(id+"u", depth-1)
+		return exprUns[vf.Choice(id+".un", len(exprUns))] + " " + genExpr(id+"u", depth-1)
 	case 3:
 		return genExpr(id+"c", depth-1) + " ? " + genExpr(id+"t", depth-1) + " : " + genExpr(id+"e", depth-1)
 	default:
@@ -380,7 +421,8 @@ func C20_Semicolons() {
 	}
 	n := 1 + vf.Choice("n", maxN)
 	t := vf.Bytes("t", n)
-	tail := []string{"\nx", " // c\nx", " /* c */\nx", " /* c\n */ x"}[vf.Choice("tail", 4)]
+	tails := []string{"\nx", " // c\nx", " /* c */\nx", " /* c\n */ x", " /* c */ // d\nx", " /* c */ /* d */\nx", "/**/// d\nx", " /* c */ /* d\n */ x"}
+	tail := tails[vf.Choice("tail", len(tails))]
 	var src []byte
 	src = append(src, t...)
 	src = append(src, tail...)
